@@ -164,7 +164,9 @@ type op struct {
 	col          nameRef
 	hooks        bool // a hook-running update finisher
 	saveAll      bool
-	dropKey      bool // a create whose records carry keys while the key column is omitted / not selected
+	dropKey      bool  // a create whose records carry keys while the key column is omitted / not selected
+	chainOrder   []int // order of the chain calls Model, Where, Select, Omit, Clauses (nil = this order)
+	reordered    bool
 	forms        map[string]bool
 }
 
@@ -963,6 +965,20 @@ func (g *gen) genOp(kind string) *op {
 	default:
 		panic("kind " + kind)
 	}
+	// the chain calls commute: one operation in three runs them in a random order
+	if r.Chance(1, 3) {
+		o.chainOrder = r.Perm(5)
+		present := []bool{o.useModel, len(o.conds) > 0, len(o.sel) > 0, len(o.omit) > 0, strings.HasPrefix(kind, "upsert-")}
+		last := -1
+		for _, i := range o.chainOrder {
+			if present[i] {
+				if i < last {
+					o.reordered = true
+				}
+				last = i
+			}
+		}
+	}
 	return o
 }
 
@@ -1022,59 +1038,6 @@ func exec(db *gorm.DB, m *model, o *op) (string, *gorm.DB) {
 		selfPtr = m.newStruct(o.recs[0].lvals())
 		selfLit = "&" + m.structLit(o.recs[0].lvals())
 	}
-	if o.useModel {
-		switch {
-		case o.valueIsModel:
-			tx = tx.Model(selfPtr.Interface())
-			desc += ".Model(v)"
-		case o.modelSlice:
-			var rs []*rec
-			for _, k := range o.modelKeys {
-				rc := &rec{vals: map[int]mval{}}
-				m.setKey(rc, k)
-				rs = append(rs, rc)
-			}
-			v, lit := m.sliceOf(rs, false)
-			tx = tx.Model(v)
-			desc += ".Model(" + lit + ")"
-		case len(o.modelKeys) == 1:
-			v, lit := m.keyStruct(o.modelKeys[0])
-			tx = tx.Model(v.Interface())
-			desc += ".Model(" + lit + ")"
-		default:
-			tx = tx.Model(reflect.New(m.typ).Interface())
-			desc += ".Model(&T{})"
-		}
-	}
-	for _, c := range o.conds {
-		tx = tx.Where(c.gq, c.gargs...)
-		desc += "." + c.desc
-	}
-	if len(o.sel) > 0 {
-		var ns []string
-		for _, n := range o.sel {
-			ns = append(ns, n.text(m))
-		}
-		if o.selSlice {
-			tx = tx.Select(ns)
-			desc += ".Select([]string{" + quoteAll(ns) + "})"
-		} else {
-			var rest []interface{}
-			for _, n := range ns[1:] {
-				rest = append(rest, n)
-			}
-			tx = tx.Select(ns[0], rest...)
-			desc += ".Select(" + quoteAll(ns) + ")"
-		}
-	}
-	if len(o.omit) > 0 {
-		var ns []string
-		for _, n := range o.omit {
-			ns = append(ns, n.text(m))
-		}
-		tx = tx.Omit(ns...)
-		desc += ".Omit(" + quoteAll(ns) + ")"
-	}
 	var pkCols []clause.Column
 	var pkNames []string
 	for _, f := range m.pks {
@@ -1082,30 +1045,103 @@ func exec(db *gorm.DB, m *model, o *op) (string, *gorm.DB) {
 		pkNames = append(pkNames, fmt.Sprintf("{Name: %q}", f.col))
 	}
 	pkLit := "Columns: []clause.Column{" + strings.Join(pkNames, ", ") + "}"
-	switch o.kind {
-	case "upsert-cols":
-		var cs []string
-		for _, fi := range o.doCols {
-			cs = append(cs, m.fields[fi].col)
-		}
-		tx = tx.Clauses(clause.OnConflict{Columns: pkCols, DoUpdates: clause.AssignmentColumns(cs)})
-		desc += ".Clauses(clause.OnConflict{" + pkLit + ", DoUpdates: clause.AssignmentColumns([]string{" + quoteAll(cs) + "})})"
-	case "upsert-assign":
-		mp := map[string]interface{}{}
-		var parts []string
-		for _, a := range o.doAssign {
-			f := m.fields[a.fi]
-			mp[f.col] = a.v.arg(f)
-			parts = append(parts, fmt.Sprintf("%q: %s", f.col, a.v.lit(f)))
-		}
-		tx = tx.Clauses(clause.OnConflict{Columns: pkCols, DoUpdates: clause.Assignments(mp)})
-		desc += ".Clauses(clause.OnConflict{" + pkLit + ", DoUpdates: clause.Assignments(map[string]interface{}{" + strings.Join(parts, ", ") + "})})"
-	case "upsert-all":
-		tx = tx.Clauses(clause.OnConflict{UpdateAll: true})
-		desc += ".Clauses(clause.OnConflict{UpdateAll: true})"
-	case "upsert-nothing":
-		tx = tx.Clauses(clause.OnConflict{DoNothing: true})
-		desc += ".Clauses(clause.OnConflict{DoNothing: true})"
+	// the chain calls; their order is o.chainOrder (the statement does not depend on it)
+	steps := []func(){
+		func() { // Model
+			if o.useModel {
+				switch {
+				case o.valueIsModel:
+					tx = tx.Model(selfPtr.Interface())
+					desc += ".Model(v)"
+				case o.modelSlice:
+					var rs []*rec
+					for _, k := range o.modelKeys {
+						rc := &rec{vals: map[int]mval{}}
+						m.setKey(rc, k)
+						rs = append(rs, rc)
+					}
+					v, lit := m.sliceOf(rs, false)
+					tx = tx.Model(v)
+					desc += ".Model(" + lit + ")"
+				case len(o.modelKeys) == 1:
+					v, lit := m.keyStruct(o.modelKeys[0])
+					tx = tx.Model(v.Interface())
+					desc += ".Model(" + lit + ")"
+				default:
+					tx = tx.Model(reflect.New(m.typ).Interface())
+					desc += ".Model(&T{})"
+				}
+			}
+		},
+		func() { // Where
+			for _, c := range o.conds {
+				tx = tx.Where(c.gq, c.gargs...)
+				desc += "." + c.desc
+			}
+		},
+		func() { // Select
+			if len(o.sel) > 0 {
+				var ns []string
+				for _, n := range o.sel {
+					ns = append(ns, n.text(m))
+				}
+				if o.selSlice {
+					tx = tx.Select(ns)
+					desc += ".Select([]string{" + quoteAll(ns) + "})"
+				} else {
+					var rest []interface{}
+					for _, n := range ns[1:] {
+						rest = append(rest, n)
+					}
+					tx = tx.Select(ns[0], rest...)
+					desc += ".Select(" + quoteAll(ns) + ")"
+				}
+			}
+		},
+		func() { // Omit
+			if len(o.omit) > 0 {
+				var ns []string
+				for _, n := range o.omit {
+					ns = append(ns, n.text(m))
+				}
+				tx = tx.Omit(ns...)
+				desc += ".Omit(" + quoteAll(ns) + ")"
+			}
+		},
+		func() { // Clauses
+			switch o.kind {
+			case "upsert-cols":
+				var cs []string
+				for _, fi := range o.doCols {
+					cs = append(cs, m.fields[fi].col)
+				}
+				tx = tx.Clauses(clause.OnConflict{Columns: pkCols, DoUpdates: clause.AssignmentColumns(cs)})
+				desc += ".Clauses(clause.OnConflict{" + pkLit + ", DoUpdates: clause.AssignmentColumns([]string{" + quoteAll(cs) + "})})"
+			case "upsert-assign":
+				mp := map[string]interface{}{}
+				var parts []string
+				for _, a := range o.doAssign {
+					f := m.fields[a.fi]
+					mp[f.col] = a.v.arg(f)
+					parts = append(parts, fmt.Sprintf("%q: %s", f.col, a.v.lit(f)))
+				}
+				tx = tx.Clauses(clause.OnConflict{Columns: pkCols, DoUpdates: clause.Assignments(mp)})
+				desc += ".Clauses(clause.OnConflict{" + pkLit + ", DoUpdates: clause.Assignments(map[string]interface{}{" + strings.Join(parts, ", ") + "})})"
+			case "upsert-all":
+				tx = tx.Clauses(clause.OnConflict{UpdateAll: true})
+				desc += ".Clauses(clause.OnConflict{UpdateAll: true})"
+			case "upsert-nothing":
+				tx = tx.Clauses(clause.OnConflict{DoNothing: true})
+				desc += ".Clauses(clause.OnConflict{DoNothing: true})"
+			}
+		},
+	}
+	order := o.chainOrder
+	if len(order) != len(steps) {
+		order = []int{0, 1, 2, 3, 4}
+	}
+	for _, i := range order {
+		steps[i]()
 	}
 	structArg := func() (interface{}, string) {
 		if len(o.recs) == 1 && o.kind != "create-slice" && o.kind != "create-batches" && o.kind != "save-slice" {
